@@ -118,6 +118,47 @@ pub fn compare(src: &str, expected: Option<&[NTok]>, out: &mut CaseOut)
 	{
 		// behaviour the documentation leaves open: the two lexers must still
 		// agree with each other
+		if r.unspecified.contains(&"return-bang")
+		{
+			// `return!`: a builtin for the first generation; the reserved word
+			// and whatever `!` starts for the second (granted by the property).
+			// Give the first-generation lexer the same text with a space
+			// between the two and map its spans back.
+			let cuts: Vec<usize> = r.toks.iter().filter(|t| t.kind == "Breturn").map(|t| t.end - 1).collect();
+			let mut spaced = String::with_capacity(src.len() + cuts.len());
+			for (i, ch) in src.char_indices()
+			{
+				if cuts.contains(&i)
+				{
+					spaced.push(' ');
+				}
+				spaced.push(ch);
+			}
+			at = reflex::alpha_tokens(&spaced)
+				.into_iter()
+				.map(|mut t| {
+					let back = |o: usize| o - cuts.iter().enumerate().filter(|(k, c)| **c + *k < o).count();
+					t.start = back(t.start);
+					t.end = back(t.end);
+					if t.kind == "Ireturn"
+					{
+						t.kind = "return".into();
+					}
+					t
+				})
+				.collect();
+			for t in dt.iter_mut()
+			{
+				if t.kind == "Breturn" || t.kind == "Ireturn" || t.kind == "Kreturn"
+				{
+					t.kind = "return".into();
+				}
+			}
+			if nerr > 100 || d.num_errors >= 100
+			{
+				at = strip_errors(&at);
+			}
+		}
 		if let Some((_, _w, _cls, ex)) = reflex::first_diff(bytes, &at, &dt, false)
 		{
 			// Is the disagreement exactly the open question and nothing more?
@@ -137,27 +178,27 @@ pub fn compare(src: &str, expected: Option<&[NTok]>, out: &mut CaseOut)
 						{
 							t.kind = "E".into();
 						}
-						if r.unspecified.contains(&"return-bang")
-							&& (t.kind == "Breturn" || t.kind == "Ireturn")
-						{
-							t.kind = "return".into();
-						}
 						t
 					})
-					.filter(|t| !(r.unspecified.contains(&"return-bang") && t.kind == "P!"))
 					.collect()
 			};
 			let (an, dn) = (norm(&at), norm(&dt));
 			match reflex::first_diff(bytes, &an, &dn, false)
 			{
+				// the property itself grants that the second generation
+				// reserves the word `return`
+				None if r.unspecified.iter().all(|u| *u == "return-bang") =>
+				{
+					out.class("note:return-bang");
+				}
 				None => out.fail(
-					format!("alpha-vs-delta [{}]", r.unspecified[0]),
+					format!("alpha-vs-delta [{}]", r.unspecified.iter().find(|u| **u != "return-bang").unwrap_or(&r.unspecified[0])),
 					detail("alpha (left) vs delta (right)", &at, &dt, ex),
 				),
 				Some((_, w, cls, ex2)) => out.fail(
 					format!(
 						"alpha-vs-delta beyond [{}]: {} at={}",
-						r.unspecified[0], w, cls
+						r.unspecified.iter().find(|u| **u != "return-bang").unwrap_or(&r.unspecified[0]), w, cls
 					),
 					detail("alpha (left) vs delta (right), normalised", &an, &dn, ex2),
 				),
@@ -353,7 +394,11 @@ impl Check for C14
 		// the first-generation lexer takes text; other bytes are C15's subject
 		if let Ok(src) = std::str::from_utf8(bytes)
 		{
-			compare(src, None, &mut out);
+			// an empty file is E101 without a position to speak of
+			if !src.is_empty()
+			{
+				compare(src, None, &mut out);
+			}
 		}
 		Some(out)
 	}
